@@ -150,7 +150,7 @@ package wal
 //@   ensures result == nil && !w.optimizedFsync ==> ghost(fsyncs, nil) > old(ghost(fsyncs, nil))
 //@   ensures ghost(fsyncs, nil) >= old(ghost(fsyncs, nil)) && ghost(flushes, nil) >= old(ghost(flushes, nil))
 //@   ensures w.optimizedFsync == old(w.optimizedFsync)
-//@   ensures result == nil ==> w.encoder != nil && len(w.locks) >= 1 && w.locks[len(w.locks)-1] != nil
+//@   ensures result == nil ==> encOK(w.encoder) && len(w.locks) >= 1 && w.locks[len(w.locks)-1] != nil
 //@   modifies ghost(flushes, nil), ghost(fsyncs, nil), w.locks, w.encoder
 
 //@ func (w *WAL) saveEntry(e *raftpb.Entry) error
@@ -178,22 +178,23 @@ package wal
 //@   ensures result == nil ==> ghost(written, nil) == old(ghost(written, nil)) + 8
 //@   ensures result != nil ==> ghost(written, nil) >= old(ghost(written, nil))
 //@   modifies ghost(written, nil), buf[0:8]
+//@ spec encOK(e *encoder) bool = e != nil && e.bw != nil && e.crc != nil && len(e.uint64buf) >= 8
 //@ func (e *encoder) encode(rec *walpb.Record) error
-//@   requires e != nil && rec != nil && e.bw != nil && e.crc != nil && len(e.uint64buf) >= 8
+//@   requires encOK(e) && rec != nil
 //@   ensures result == nil ==> (ghost(written, nil) - old(ghost(written, nil))) % 8 == 0 && ghost(written, nil) - old(ghost(written, nil)) >= 8 + ghost(pbsize, rec) && ghost(written, nil) - old(ghost(written, nil)) < 16 + ghost(pbsize, rec)
 //@   ensures int(rec.Crc) == ghost(crcsum, e.crc)
-//@   modifies *
+//@   modifies rec.Crc, ghost(crcsum, e.crc), ghost(written, nil), e.buf[0:cap(e.buf)], e.uint64buf[0:8]
 
 //@ func (w *WAL) saveState(s *raftpb.HardState) error
-//@   requires w != nil && s != nil
+//@   requires w != nil && s != nil && encOK(w.encoder)
 //@   ensures (s.Term == 0 && s.Vote == 0 && s.Commit == 0) ==> result == nil && w.state.Term == old(w.state.Term) && w.state.Vote == old(w.state.Vote) && w.state.Commit == old(w.state.Commit)
 //@   ensures !(s.Term == 0 && s.Vote == 0 && s.Commit == 0) ==> w.state.Term == s.Term && w.state.Vote == s.Vote && w.state.Commit == s.Commit
-//@   modifies w.state.Term, w.state.Vote, w.state.Commit
+//@   modifies w.state.Term, w.state.Vote, w.state.Commit, ghost(crcsum, _), ghost(written, nil), w.encoder.buf[0:cap(w.encoder.buf)], w.encoder.uint64buf[0:8]
 
 // Raft's "persist before answering" set: new entries, a changed vote or a changed term are flushed before
 // Save returns; a changed vote/term is additionally fsynced, in the optimized-fsync mode too.
 //@ func (w *WAL) Save(st raftpb.HardState, ents []raftpb.Entry) error
-//@   requires w != nil && w.encoder != nil && len(w.locks) >= 1 && w.locks[len(w.locks)-1] != nil
+//@   requires w != nil && encOK(w.encoder) && len(w.locks) >= 1 && w.locks[len(w.locks)-1] != nil
 //@   ensures result == nil && (len(ents) != 0 || (!(st.Term == 0 && st.Vote == 0 && st.Commit == 0) && (st.Vote != old(w.state.Vote) || st.Term != old(w.state.Term)))) ==> ghost(flushes, nil) > old(ghost(flushes, nil))
 //@   ensures result == nil && !(st.Term == 0 && st.Vote == 0 && st.Commit == 0) && (st.Vote != old(w.state.Vote) || st.Term != old(w.state.Term)) ==> ghost(fsyncs, nil) > old(ghost(fsyncs, nil))
 //@   ensures result == nil && !w.optimizedFsync && (len(ents) != 0 || !(st.Term == 0 && st.Vote == 0 && st.Commit == 0)) && (len(ents) != 0 || st.Vote != old(w.state.Vote) || st.Term != old(w.state.Term)) ==> ghost(fsyncs, nil) > old(ghost(fsyncs, nil))
